@@ -42,15 +42,28 @@ func RoundConstant(ir int) uint64 {
 	return rc
 }
 
-var rhoOffsets [5][5]uint // [x][y]
-
-var roundConstants [24]uint64
+// Tables derived in init from the formulas of FIPS 202 section 3.2 (nothing is
+// typed in): lane (x,y) lives at index x+5y.
+var (
+	rhoOffsets     [25]uint // rho: rotation of lane (x,y)
+	piSource       [25]int  // pi: A'[x][y] = A[(x+3y) mod 5][x]
+	chiNext1       [25]int  // index of lane (x+1 mod 5, y)
+	chiNext2       [25]int  // index of lane (x+2 mod 5, y)
+	roundConstants [24]uint64
+)
 
 func init() {
 	x, y := 1, 0
 	for t := 0; t < 24; t++ {
-		rhoOffsets[x][y] = uint((t+1)*(t+2)/2) % 64
+		rhoOffsets[x+5*y] = uint((t+1)*(t+2)/2) % 64
 		x, y = y, (2*x+3*y)%5
+	}
+	for x := 0; x < 5; x++ {
+		for y := 0; y < 5; y++ {
+			piSource[x+5*y] = (x+3*y)%5 + 5*x
+			chiNext1[x+5*y] = (x+1)%5 + 5*y
+			chiNext2[x+5*y] = (x+2)%5 + 5*y
+		}
 	}
 	for i := range roundConstants {
 		roundConstants[i] = RoundConstant(i)
@@ -58,67 +71,45 @@ func init() {
 }
 
 func rotl(v uint64, n uint) uint64 {
-	n %= 64
 	if n == 0 {
 		return v
 	}
 	return v<<n | v>>(64-n)
 }
 
-// round applies Rnd(A, ir) = iota(chi(pi(rho(theta(A)))), ir); A is indexed [x][y].
-func round(A *[5][5]uint64, ir int) {
-	// theta
+// round applies Rnd(A, ir) = iota(chi(pi(rho(theta(A)))), ir).
+func round(A *[25]uint64, ir int) {
+	// theta: C[x] = xor of column x; D[x] = C[x-1] ^ rot(C[x+1], 1)
 	var C, D [5]uint64
 	for x := 0; x < 5; x++ {
-		C[x] = A[x][0] ^ A[x][1] ^ A[x][2] ^ A[x][3] ^ A[x][4]
+		C[x] = A[x] ^ A[x+5] ^ A[x+10] ^ A[x+15] ^ A[x+20]
 	}
 	for x := 0; x < 5; x++ {
 		D[x] = C[(x+4)%5] ^ rotl(C[(x+1)%5], 1)
 	}
-	for x := 0; x < 5; x++ {
-		for y := 0; y < 5; y++ {
-			A[x][y] ^= D[x]
-		}
+	var B [25]uint64
+	for i := 0; i < 25; i++ {
+		// theta then rho on lane i
+		B[i] = rotl(A[i]^D[i%5], rhoOffsets[i])
 	}
-	// rho
-	for x := 0; x < 5; x++ {
-		for y := 0; y < 5; y++ {
-			A[x][y] = rotl(A[x][y], rhoOffsets[x][y])
-		}
-	}
-	// pi: A'[x][y] = A[(x+3y) mod 5][x]
-	var B [5][5]uint64
-	for x := 0; x < 5; x++ {
-		for y := 0; y < 5; y++ {
-			B[x][y] = A[(x+3*y)%5][x]
-		}
+	// pi
+	var P [25]uint64
+	for i := 0; i < 25; i++ {
+		P[i] = B[piSource[i]]
 	}
 	// chi
-	for x := 0; x < 5; x++ {
-		for y := 0; y < 5; y++ {
-			A[x][y] = B[x][y] ^ (^B[(x+1)%5][y] & B[(x+2)%5][y])
-		}
+	for i := 0; i < 25; i++ {
+		A[i] = P[i] ^ (^P[chiNext1[i]] & P[chiNext2[i]])
 	}
 	// iota
-	A[0][0] ^= roundConstants[ir]
+	A[0] ^= roundConstants[ir]
 }
 
 // P1600 applies Keccak-p[1600, nr] to the 25 lanes (lane (x,y) at index x+5y):
 // the rounds with indices 24-nr .. 23 of Keccak-f[1600].
 func P1600(lanes *[25]uint64, nr int) {
-	var A [5][5]uint64
-	for x := 0; x < 5; x++ {
-		for y := 0; y < 5; y++ {
-			A[x][y] = lanes[x+5*y]
-		}
-	}
 	for ir := 24 - nr; ir < 24; ir++ {
-		round(&A, ir)
-	}
-	for x := 0; x < 5; x++ {
-		for y := 0; y < 5; y++ {
-			lanes[x+5*y] = A[x][y]
-		}
+		round(lanes, ir)
 	}
 }
 
